@@ -427,6 +427,11 @@ def gen_doc(rng, idx: int) -> Doc:
     if nforms:
         d.features.append("forms:%d" % nforms)
 
+    # colour space resource /CS0: a different space per document, or none although the content names it
+    cs_name = rng.choice([None, "DeviceRGB", "DeviceCMYK", "DeviceGray"])
+    cs_ops = {None: b"/CS0 cs 0.5 scn\n", "DeviceRGB": b"/CS0 cs 0.1 0.2 0.3 scn\n",
+              "DeviceCMYK": b"/CS0 cs 0.1 0.2 0.3 0.4 scn\n", "DeviceGray": b"/CS0 cs 0.25 scn\n"}[cs_name]
+    d.features.append("cs:" + str(cs_name))
     kids = []
     line_no = 0
     used_form_nested = False
@@ -457,7 +462,7 @@ def gen_doc(rng, idx: int) -> Doc:
         # content
         y = 760.0 - rng.choice([0, 3.5, 9.25])
         parts: List[bytes] = []
-        cur = bytearray()
+        cur = bytearray(cs_ops)
         nlines = rng.randint(2, 4)
         xobjs: Dict[str, Any] = {}
         for ln in range(nlines):
@@ -506,6 +511,8 @@ def gen_doc(rng, idx: int) -> Doc:
             page["Contents"] = [Ref(cnum), Ref(cnum + 1)]
             page_reads.extend([cnum, cnum + 1])
         full_res = {"Font": res, "ProcSet": ["PDF", "Text"]}
+        if cs_name:
+            full_res["ColorSpace"] = {"CS0": cs_name}
         if xobjs:
             full_res["XObject"] = xobjs
         if res_mode == "own" or xobjs:
